@@ -39,7 +39,8 @@ CLAIMED.update({
                    "(key sets of 1-2 fields, every comparison operator)",
                    "TLC checks UniqueIffEarlierAccepted (incl. see-also = first occurrence) and DistinctAtEnd; replay compares "
                    "per-row verdicts, see-also row and the end-of-data verdict. The expected-counterexample configuration "
-                   "with RegisterOnReach=TRUE documents known finding D12.",
+                   "with RegisterOnReach=TRUE documents known finding D12. Unbounded companion: UniqueInductive.tla, the "
+                   "uniqueness bookkeeping as an inductive invariant discharged by Apalache (any number of rows and data sets).",
                    "DESIGN.md section 5, C05"),
     "C06": session("all tables <= 3 rows x {raise, yield, continue} x faults at every row boundary, reader API with counters",
                    "TLC checks ModesAgree, CountersAddUp, FaultStopsEveryMode as relations between the three modes of one table; "
@@ -119,7 +120,9 @@ CLAIMED.update({
             "DESIGN.md section 5, C11"),
     "C09": ("TLA+ spec CidLoad.tla (row dispatch of Cid.read as a machine over abstract rows vs. Sound / FirstOffending stated from "
             "the property): TLC exhaustive over base CIDs x exactly one defect of the catalogue at every applicable row x row-level "
-            "rewrites; every behaviour replayed through Cid.read and create_cid_from_string with the concrete catalogue cells",
+            "rewrites; every behaviour replayed through Cid.read and create_cid_from_string with the concrete catalogue cells; "
+            "executions of Cid.read recorded through hooks (sampled catalogue CIDs and the CIDs the repository's tests load) are "
+            "validated against CidLoadTrace.tla",
             "TLC checks AcceptedIffSound, RejectionNamesTheRow and KeepsOrder; replay compares acceptance, the row named by the "
             "InterfaceError (location or text), field names and classes in order, check names and the format, in plain form, with "
             "lower-case blank-padded markers, with trailing cells and from CSV text.",
